@@ -249,6 +249,7 @@ func main() {
 	factsUpstream()
 	factsProxyTimeout()
 	factsLRUCallbacks()
+	factsSkeleton()
 
 	out.WriteString("\nend Pike.Facts\n")
 	if outPath == "" {
